@@ -52,6 +52,14 @@ CHECKS = {
    text="Proof (Coq): when OrderDSCForBuild returns an order it is a permutation of the input in which every source comes after the provider (last source listing the binary) of each binary picked from its three build-dependency fields; when it reports a cycle no topological order exists; the pass loop never runs out of fuel (C19.v: 5 theorems incl. the generic topsort statements, closed). Tie: random graphs over 1-12 sources rendered as .dsc text with folded Binary / Build-Depends, parsed by ParseDsc and ordered for two architectures, compared with the model's whole text-to-order pipeline and with a graph-level oracle in the driver (permutation, providers first, error iff cyclic, same on re-run).",
    note="Trusted: as C01. pault.ag/go/topsort v0.1.1 is modelled (TS.sort), not verified beyond the tie. Sources are identified by position (distinct names). The text-to-graph path composes the C07/C10/C04/C06 models (TS3, definitions only).",
    technique="Coq proof (invariant over sorting passes; first-element argument for cycles) + differential correspondence from .dsc text", ref="5/C19"),
+ "C09": dict(
+   text="Proof (Coq): every scalar value round-trips; string lists of trimmed delimiter-free elements round-trip; at record level - generic in the family of value codecs, instantiated with scalars, lists and custom types given by their own codec (version: C03, dependency/architecture: C05) - unmarshalling the marshalled paragraph reproduces the record; through the text (Marshal, WriteTo, reader, decode) for scalar kinds; a field is written iff required or non-empty; a required field that is absent is an error; unknown fields of the embedded paragraph keep their relative order (C09.v: 7 theorems, closed). Tie: the codec model is an instance of the same generic functions over field descriptors REGENERATED from the compiled Go struct tags; control.Marshal/Unmarshal vs the model on four probe struct types covering every kind and tag combination, with the property's predicates (field-by-field round trip, omission/required, pass-through order and content, no panic, required-missing error) evaluated on the implementation.",
+   note="Trusted: as C01, plus harness/cmd/schemadump (reflection dumper) and the probe types in harness/probe. Reflection is abstracted to the dumped descriptors. Multi-line strings compare up to the one trailing newline the reader adds (C08). Pointer fields are not a supported kind.",
+   technique="Coq proof (generic record codec) + schema regeneration from struct tags + differential correspondence against control.Marshal/Unmarshal", ref="5/C09"),
+ "C10": dict(
+   text="Proof (Coq): for each typed document kind (.dsc, .changes, debian/control source and binary paragraphs, Packages, Sources, best checksums, .deb control) the struct tags REGENERATED from the compiled Go types satisfy the table of real Debian fields - key, kind, delimiter, strip set, hash algorithm of the element type, required flags (8 schema lemmas by vm_compute, re-checked on every run); decoding succeeds with r iff every field decodes pointwise; list fields however padded and folded decode to their elements; newline-delimited lists ignore the leading/trailing newline; accessor lemmas (C10.v: 15 statements, closed). Tie: documents rendered in real layout from a model of their fields (presence, folded vs single-line lists, multi-binary, several uploaders, 1..n files) through ParseDsc / ParseChanges / ParseControl / ParseBinaryIndex / ParseSourceIndex / deb.Control, compared with the regenerated-schema decoder of the model and, field by field, with the document model; accessors (Maintainers, HasArchAll, AbsFiles, SourcePackage, SourceName, best checksums) against the model of the document.",
+   note="Trusted: as C09. The nested-struct walk of decodeStruct (keys named like fields of nested types: Epoch, Revision, Relations, ABI, OS, CPU) is not modelled and such keys are not generated. path.Join is an oracle (Python posixpath in the driver).",
+   technique="Coq proof + schema regeneration (struct tags dumped by reflection, lemmas re-checked) + differential correspondence against the typed parsers", ref="5/C10"),
 }
 NOT_YET = {}
 
